@@ -20,7 +20,7 @@ func init() {
 			r.frameCondition("interp")
 			r.deferShape()
 		},
-		Covered: []string{"frame condition on every run-time closure: generation-time (captured) state is read-only", "one fresh frame per call of a script function (call, getFunc, genFunctionWrapper)", "frame locks of runCfg's deferred function (shared with C06)"},
+		Covered: []string{"frame condition on every run-time closure: generation-time (captured) state is read-only", "one fresh frame per call of a script function (call, getFunc, genFunctionWrapper)", "frame locks of runCfg's deferred function (shared with C06)", "every slot of a call frame is allocated by the call (getFunc, genFunctionWrapper, locals of call)", "arguments of `go hostFunc(...)` are copied at the go statement"},
 		Uncov:   []string{"schedules and output equality under interleavings", "races the script itself causes inside frame data", "aliasing through locals (c := captured; c[i] = ...) is not tracked"},
 		Trusted: []string{"T1 go toolchain, go/types", "T2 govc frame checker"},
 	})
@@ -62,7 +62,7 @@ func init() {
 	register(&PropDef{
 		ID: "C10", Patterns: []string{"./interp"},
 		Extra:   func(r *Run) { r.idWriters() },
-		Covered: []string{"Execute refreshes the root frame id before any run", "resizeFrame leaves ids untouched", "entry obligation of host-callable wrappers (expected findings)", "run-id gate of runCfg in both loops (frame currentness demanded from callers only)", "Interpreter.run: the frame listens to the done channel of the current run"},
+		Covered: []string{"Execute refreshes the root frame id before any run", "resizeFrame leaves ids untouched", "entry obligation of host-callable wrappers (expected findings)", "run-id gate of runCfg in both loops (frame currentness demanded from callers only)", "Interpreter.run: the frame listens to the done channel of the current run", "stop leaves an open done channel for later evaluations", "a cancelled receive leaves its destination alone", "Symbols binds wrappers to the root frame"},
 		Uncov:   []string{"whole histories of evaluations; symbol tables after a cancelled compile phase"},
 		Trusted: trusted,
 	})
@@ -107,7 +107,7 @@ func init() {
 	register(&PropDef{
 		ID: "C03", Patterns: []string{"./interp"}, Specs: []string{"ops", "consts"},
 		Extra: func(r *Run) { r.dispatchTables() },
-		Covered: []string{"representableConst for every integer kind and every integer constant", "constant folders: untyped operands fold to go/constant's operation with the spec token (QUO_ASSIGN exactly for untyped integer results); typed operands compute the kind's operation", "typed constant overflow must be rejected (known finding)", "representableConst for float, complex, string and bool kinds", "convertConst / convertConstantValue / genValueAs: single rounding per target kind, no refusal of representable constants", "representable / convertUntyped imply representableConst; return statement, comparison operand and send statement (finding) demand representability", "constant builtins len/complex/real/imag", "assignment and index rules of typecheck.go (shared with C12)"},
+		Covered: []string{"representableConst for every integer kind and every integer constant", "constant folders: untyped operands fold to go/constant's operation with the spec token (QUO_ASSIGN exactly for untyped integer results); typed operands compute the kind's operation (every branch: int, float, complex, string; bitwise and shift folders in bit-vector variants)", "typed constant overflow must be rejected (known finding)", "representableConst for float, complex, string and bool kinds", "convertConst / convertConstantValue / genValueAs: single rounding per target kind, no refusal of representable constants", "representable / convertUntyped imply representableConst; return statement, comparison operand and send statement (finding) demand representability", "constant builtins len/complex/real/imag", "assignment and index rules of typecheck.go (shared with C12)"},
 		Uncov:   []string{"rounding inside go/constant (its functions are uninterpreted)", "iota bookkeeping and implicit repetition (ast/gta/cfg walks)", "literal parsing", "the remaining places where cfg gives a constant a type (composite literal elements, map keys, call arguments: they go through check.assignment, which is under contract, but the call sites are not)"},
 		Trusted: []string{"T1 go toolchain, solvers", "T2 govc", "T4 go/constant computes exact constant arithmetic (BinaryOp/UnaryOp/Shift/ToInt uninterpreted functions of the token; BitLen(x) <= k iff |x| < 2^k)", "T3 reflect.Value model"},
 	})
@@ -117,7 +117,7 @@ func init() {
 	register(&PropDef{
 		ID: "C19", Patterns: []string{"./interp"},
 		Extra: func(r *Run) { r.debuggerFrame(); r.sessionLifecycle() },
-		Covered: []string{"both loops of runCfg apply exec closures only behind the run-id gate (shared with C09)", "Debugger.exec/enterCall/exitCall assign only debugger state (f.debug, goroutine records, dbg.*)", "setBreakOnLine/setBreakOnCall set exactly their own flag; the visitor of SetBreakpoints keeps function breakpoints in the line pass and vice versa", "Debugger.exec: per-node stop decision against a ghost trace of the event callback (breakpoints always reported, step filters)", "node tracking of the debugger loop (known finding: code-pointer comparison; tie-break pinned)", "originalExecNode: the last matching node in walk order", "Step/Continue/Interrupt/setMode: requests reach the goroutine they name, mode and depth as requested", "getGoRoutine (verified lookup), Terminate (every live routine told, table emptied)", "session goroutine: terminate event deferred first, execution after the resume request"},
+		Covered: []string{"both loops of runCfg apply exec closures only behind the run-id gate (shared with C09)", "Debugger.exec/enterCall/exitCall assign only debugger state (f.debug, goroutine records, dbg.*)", "setBreakOnLine/setBreakOnCall set exactly their own flag; the visitor of SetBreakpoints keeps function breakpoints in the line pass and vice versa, and a request without breakpoints of one kind leaves those of that kind alone", "Debugger.exec: per-node stop decision against a ghost trace of the event callback (breakpoints always reported, step filters)", "node tracking of the debugger loop (known finding: code-pointer comparison; tie-break pinned)", "originalExecNode: the last matching node in walk order", "Step/Continue/Interrupt/setMode: requests reach the goroutine they name, mode and depth as requested", "getGoRoutine (verified lookup), Terminate (every live routine told, table emptied)", "session goroutine: terminate event deferred first, execution after the resume request"},
 		Uncov:   []string{"order of events across nodes and goroutines", "that no event follows the terminate event at run time (only its registration order is checked)"},
 		Trusted: []string{"T1 go toolchain, solvers", "T2 govc", "A3 sequential semantics"},
 	})
@@ -143,7 +143,7 @@ func init() {
 	})
 	register(&PropDef{
 		ID: "C16", Patterns: []string{"./interp"},
-		Covered: []string{"importSrc: already imported => recorded name returned, no evaluation step; cycle check precedes every evaluation step and yields an error; success registers the package; relative imports of main resolve against '.' for nested packages", "previousRoot: every ancestor below GOPATH/src is searched for a vendor directory through the supplied file system, nearest first", "pkgDir: vendor of the importer first, then GOPATH/src, then the enclosing roots"},
+		Covered: []string{"importSrc: already imported => recorded name returned, no evaluation step; cycle check precedes every evaluation step and yields an error; success registers the package; relative imports of main resolve against '.' for nested packages", "previousRoot: every ancestor below GOPATH/src is searched for a vendor directory through the supplied file system, nearest first", "pkgDir: vendor of the importer first, then GOPATH/src, then the enclosing roots", "importSrc reads the directory and continues from the root that pkgDir returned"},
 		Uncov:   []string{"effectivePkg (path-segment manipulation): not under contract", "real vs. virtual filesystem equivalence beyond previousRoot's lookups"},
 		Trusted: []string{"T1 go toolchain, solvers", "T2 govc"},
 	})
@@ -153,7 +153,7 @@ func init() {
 	register(&PropDef{
 		ID: "C18", Patterns: []string{"./extract"},
 		Extra:   func(r *Run) { r.extractShape() },
-		Covered: []string{"fixConst: exact textual value and token per constant kind, helper imports recorded", "classification switch of genContent: constants and functions by value, variables by address, types as types, generic objects skipped (shape obligations)", "qualifier: every foreign package printed is imported", "constraint-interface test on the complete method set", "wrapper method strings: parameters, variadic last parameter, arguments, results, receiver qualification", "genBuildTags: go1.N, with the exclusion of go1.N+1 unless N is the newest known release"},
+		Covered: []string{"fixConst: exact textual value and token per constant kind, helper imports recorded", "classification switch of genContent: constants and functions by value, variables by address, types as types, generic objects skipped (shape obligations)", "qualifier: every foreign package printed is imported", "constraint-interface test on the complete method set", "wrapper method strings: parameters, variadic last parameter, arguments, results, receiver qualification", "genBuildTags: go1.N, with the exclusion of go1.N+1 unless N is the newest known release", "float constants printed with at least one decimal digit per mantissa bit"},
 		Uncov:   []string{"template rendering and format.Source", "that the output compiles for every package", "float constants are printed from a big.Float (see C14 finding)"},
 		Trusted: []string{"T1 go toolchain, solvers", "T2 govc", "fmt.Sprintf is a pure function of its arguments; go/constant ExactString/String are distinct pure functions"},
 	})
@@ -162,8 +162,8 @@ func init() {
 func init() {
 	register(&PropDef{
 		ID: "C04", Patterns: []string{"./interp"},
-		Covered: []string{"single assignment copies content into the existing location", "define (:=) allocates a new location holding the copy and leaves the previous one untouched", "multi-assignment reads every right-hand side into a fresh temporary before the first write (first loop of the swap-safe closure)", "slice expressions: operands in order", "spread argument of a variadic call shares the caller's slice", "len/cap/append/copy/delete builtins, address-of and dereference, map index, map and array literals, make: result against the reflect model (append: one growth for all values)"},
-		Uncov:   []string{"sequences of operations (the property's history quantifier)", "other call argument copies, range copies, struct composite literals, map element update through getIndexMap2, new", "reflect's own copy semantics (T3)"},
+		Covered: []string{"single assignment copies content into the existing location", "define (:=) allocates a new location holding the copy and leaves the previous one untouched", "multi-assignment reads every right-hand side into a fresh temporary before the first write (first loop of the swap-safe closure)", "slice expressions: operands in order", "spread argument of a variadic call shares the caller's slice", "len/cap/append/copy/delete builtins, address-of and dereference, map index, map and array literals, make: result against the reflect model (append: one growth for all values)", "v, ok := m[k]: zero value for an absent key; a[i]: the aliasing element; range: one evaluation of the operand, iteration over the snapshot; call: arguments copied into the parameter slots"},
+		Uncov:   []string{"sequences of operations (the property's history quantifier)", "other call argument copies, range copies, struct composite literals, new, rangeMap / rangeInt", "reflect's own copy semantics (T3)"},
 		Trusted: []string{"T1 go toolchain, solvers", "T2 govc", "T3 reflect.Value model (Set copies content, New allocates)", "value functions are pure lookups returning pre-state locations"},
 	})
 }
@@ -171,7 +171,7 @@ func init() {
 func init() {
 	register(&PropDef{
 		ID: "C07", Patterns: []string{"./interp"},
-		Covered: []string{"script calling a host function from a multi-value assignment: each result is stored in a new slot for a newly declared variable and in place for a redeclared or assigned one (slot identity, for every position)", "plain host call: result i is stored in slot findex+i, func results replace the slot, no other slot is touched", "frame ids of wrapper frames (shared with C09/C10)", "callBin argument vectors (variadic spread, interface wrapping by the first implemented interface of getMapType)", "genFunctionWrapper: host arguments land in the parameter slots, results are read from the result slots"},
+		Covered: []string{"script calling a host function from a multi-value assignment: each result is stored in a new slot for a newly declared variable and in place for a redeclared or assigned one (slot identity, for every position)", "plain host call: result i is stored in slot findex+i, func results replace the slot, no other slot is touched", "frame ids of wrapper frames (shared with C09/C10)", "callBin argument vectors (variadic spread, interface wrapping by the first implemented interface of getMapType)", "genFunctionWrapper: host arguments land in the parameter slots, results are read from the result slots", "genValueRecv: a pointer is followed at every step of an embedded-field path", "Symbols: wrappers and variables are bound to the root frame", "method values bind their receiver when evaluated (value receivers copied)"},
 		Uncov:   []string{"getFunc's result slice", "genInterfaceWrapper", "Execute's wrapping of function results, Use table copy", "reflect.Call itself"},
 		Trusted: []string{"T1 go toolchain, solvers", "T2 govc", "T3 reflect.Value model", "value functions are pure lookups; destinations of one assignment are distinct slots (assumed)"},
 	})
@@ -181,7 +181,7 @@ func init() {
 	register(&PropDef{
 		ID: "C11", Patterns: []string{"./interp"},
 		Extra:   func(r *Run) { r.phaseOrder(); r.frameLayoutResync() },
-		Covered: []string{"resizeFrame keeps every existing global slot (same location) and only grows the frame", "Execute phase order", "the importer's frame layout is re-synchronised after every successful source import", "source name of an unnamed piece", "main scheduled only by the piece that defines it", "multi-value definitions stay redeclarable across pieces", "nested := (known finding) and top-level comma-ok definitions (known finding)"},
+		Covered: []string{"resizeFrame keeps every existing global slot (same location) and only grows the frame", "Execute phase order", "the importer's frame layout is re-synchronised after every successful source import", "source name of an unnamed piece", "main scheduled only by the piece that defines it", "multi-value definitions stay redeclarable across pieces", "nested := (known finding) and top-level comma-ok definitions (known finding)", "gta: every name of a package-level definition gets a global symbol"},
 		Uncov:   []string{"equality of outputs across cuts of a program", "incremental parse classification (ast.go parse / wrapInMain)", "redefinition of functions and types", "Compile/Execute vs Eval equivalence"},
 		Trusted: []string{"T1 go toolchain, solvers", "T2 govc"},
 	})
